@@ -126,6 +126,8 @@ struct NsState {
     attr: Vec<R>,
     prefixes: BTreeMap<Vec<u8>, Vec<u8>>,
     dup_prefixes: bool,
+    /// a resolved name came back with a local part other than the bytes after its colon
+    wrong_local: Option<(Vec<u8>, Vec<u8>)>,
 }
 
 impl std::fmt::Debug for NsState {
@@ -146,6 +148,9 @@ impl std::fmt::Debug for NsState {
         if self.dup_prefixes {
             write!(f, " (DUPLICATE ENTRIES)")?;
         }
+        if let Some((n, l)) = &self.wrong_local {
+            write!(f, " (resolving {:?} returned the local name {:?})", lossy(n), lossy(l))?;
+        }
         write!(f, "}}")
     }
 }
@@ -162,9 +167,23 @@ fn observe<Rd>(r: &NsReader<Rd>) -> NsState {
             dup = true;
         }
     }
+    let mut wrong_local = None;
+    let mut elem = Vec::with_capacity(PROBES.len());
+    let mut attr = Vec::with_capacity(PROBES.len());
+    for n in PROBES.iter() {
+        let want = n.iter().position(|&b| b == b':').map_or(&n[..], |i| &n[i + 1..]);
+        let (re, le) = r.resolve_element(QName(n));
+        let (ra, la) = r.resolve_attribute(QName(n));
+        if (le.as_ref() != want || la.as_ref() != want) && wrong_local.is_none() {
+            wrong_local = Some((n.to_vec(), if le.as_ref() != want { le.as_ref().to_vec() } else { la.as_ref().to_vec() }));
+        }
+        elem.push(R::of(&re));
+        attr.push(R::of(&ra));
+    }
     NsState {
-        elem: PROBES.iter().map(|n| R::of(&r.resolve_element(QName(n)).0)).collect(),
-        attr: PROBES.iter().map(|n| R::of(&r.resolve_attribute(QName(n)).0)).collect(),
+        wrong_local,
+        elem,
+        attr,
         prefixes,
         dup_prefixes: dup,
     }
@@ -176,6 +195,7 @@ fn model_state(chain: &[Scope]) -> NsState {
         attr: PROBES.iter().map(|n| resolve(chain, n, true)).collect(),
         prefixes: in_scope_prefixes(chain),
         dup_prefixes: false,
+        wrong_local: None,
     }
 }
 
